@@ -98,7 +98,8 @@ OBLIGATIONS = {
         ("parent-admits-type", "every link is one add_comp would accept (loads have no children, sources are roots)",
          ['(isinstance(parent, list) and comp._component_type in self._g[self._get_index(ELEM(parent))]._child_types) or (not isinstance(parent, list) and comp._component_type in self._g[self._get_index(parent)]._child_types)']),
         ("single-pmux", "there is at most one PMux",
-         ['comp._component_type != _ComponentTypes.PMUX or not (self._g[%s[ELEM(%s)]]._component_type == _ComponentTypes.PMUX)' % (NODES, NODES)]),
+         ['comp._component_type != _ComponentTypes.PMUX or not (self._g[%s[ELEM(%s)]]._component_type == _ComponentTypes.PMUX)' % (NODES, NODES),
+          'comp._component_type != _ComponentTypes.PMUX or not (self._g[ELEM(%s.values())]._component_type == _ComponentTypes.PMUX)' % NODES]),
     ],
     "change_comp": [
         ("target-exists", "the edited component exists", ["name in %s" % NODES]),
@@ -115,7 +116,8 @@ OBLIGATIONS = {
         ("pmux-stays-pmux", "only a PMux has more than one parent",
          ["self._g[self._get_index(name)]._component_type != _ComponentTypes.PMUX or isinstance(comp, PMux)"]),
         ("no-new-pmux", "there is at most one PMux",
-         ['self._g[self._get_index(name)]._component_type == _ComponentTypes.PMUX or comp._component_type != _ComponentTypes.PMUX or not (self._g[%s[ELEM(%s)]]._component_type == _ComponentTypes.PMUX)' % (NODES, NODES)]),
+         ['self._g[self._get_index(name)]._component_type == _ComponentTypes.PMUX or comp._component_type != _ComponentTypes.PMUX or not (self._g[%s[ELEM(%s)]]._component_type == _ComponentTypes.PMUX)' % (NODES, NODES),
+          'self._g[self._get_index(name)]._component_type == _ComponentTypes.PMUX or comp._component_type != _ComponentTypes.PMUX or not (self._g[ELEM(%s.values())]._component_type == _ComponentTypes.PMUX)' % NODES]),
         ("parent-admits-type", "every link is one add_comp would accept",
          ["self._get_parents()[self._get_index(name)] == -1 or comp._component_type in self._g[self._get_parents()[self._get_index(name)][0]]._child_types"]),
         ("type-admits-children", "every link is one add_comp would accept (loads have no children)",
@@ -561,6 +563,12 @@ def link_direction_rule(model, rep, r, rule):
             if good:
                 rng = show_value(p.key[2])
                 good = "range(1, " in rng
+            else:
+                # for extra in lst[1:]: add_edge(extra, new)
+                src = p.key[1] if isinstance(p, Sym) and p.key[0] == "elem" else None
+                if vkey(c) == vkey(newnode) and isinstance(src, Sym) and src.key[0] == "sub" and vkey(src.key[1]) == vkey(lst):
+                    sl = show_value(src.key[2]).replace(" ", "")
+                    good = sl in ("slice((1,None,None))", "slice((1,None,1))")
             if not good:
                 ok = False
                 rep.violation(rule, "system.System.add_comp", "%s:%d" % (rel, e[4]), "a further input is linked as add_edge(%s, %s), expected (k-th declared parent for k >= 1, the new node)" % (show_value(p)[:80], show_value(c)[:60]), "add_edge operands")
